@@ -158,3 +158,22 @@ def parse_value_helper(chk, ctx, rule) -> None:
     chk.ob(rule, 'utilities.parse_value', ok, pv.loc if pv else 'pokerkit/utilities.py',
            'chip text is an int when it can be, otherwise an exact Decimal (so `inf`, exponents and fractions written by the dumper '
            'read back); thousands separators are ignored')
+
+
+def no_format_specs(chk, ctx, rule, fis) -> None:
+    """the writers put numbers into text as they are: no f-string format specification / conversion, no '%' or .format() with a
+    precision, no int()/round() around a written amount - any of them rounds, truncates or switches to exponent notation"""
+    import ast
+    for fi in fis:
+        bad = []
+        for n in ast.walk(fi.node):
+            if isinstance(n, ast.FormattedValue) and n.format_spec is not None \
+                    and not (isinstance(n.value, ast.Call) and isinstance(n.value.func, ast.Name) and n.value.func.id == 'ord'):
+                bad.append(ast.unparse(n)[:60])       # (the hex code of a character in an escape is not a chip amount)
+            if isinstance(n, ast.Call) and isinstance(n.func, ast.Attribute) and n.func.attr == 'format' and isinstance(n.func.value, ast.Constant):
+                bad.append(ast.unparse(n)[:60])
+            if isinstance(n, ast.BinOp) and isinstance(n.op, ast.Mod) and isinstance(n.left, ast.Constant) and isinstance(n.left.value, str):
+                bad.append(ast.unparse(n)[:60])
+        chk.ob(rule, f'{fi.qualname}:plain_numbers', not bad, fi.loc,
+               'numbers are written into the text with str()/repr() semantics only (no format specification that could round or re-format them)',
+               got=bad[:3])
